@@ -27,6 +27,15 @@ def rule(key, dig, desc, kinds):
     es = entries(rid)
     ps = [e for e in es if not e["ret"]]
     anyk = lambda *ks: any(k in kinds for k in ks)  # noqa: E731
+    # g1_11_4: prose that begins with the word Optional makes the parser wrap the declared type in Optional[...] (a heuristic of
+    # _set_name_and_type meant for untyped docstrings; it also fires when the type is declared): the type changes, and with every
+    # further emit/parse cycle of a non-Optional type nothing else does
+    if any((e["doc"] or "").startswith(("Optional", "(Optional)")) and (anyk(*FN) or not (e["typ"] or "").startswith("Optional[")) for e in es):
+        return "KF-RT-optional-prose-wraps-type"
+    # g1_49_1: a str default that contains a full stop ('x.y', '.bak') is cut at the stop when read back from the default sentence
+    # (same scan as KF-C17-strdot); for emit.function the cut text is an unterminated string literal
+    if any(isinstance(e["default"], str) and not is_code(e["default"]) and e["default"] != NoneStr and "." in e["default"] for e in es):
+        return "KF-RT-str-default-dot"
     # g3_11_6_0: a return entry that has prose but no type: class annotates it `object`, google reads the prose line as the type,
     # numpydoc writes the prose where the type belongs and reads 'Returns' / '-------' back as parameter names
     if any(e["ret"] and e["typ"] is None for e in es) and anyk("class", "numpydoc", "google"):
@@ -36,7 +45,7 @@ def rule(key, dig, desc, kinds):
     if any(e["ret"] and not e["doc"] for e in es) and anyk("numpydoc", "google", *FN):
         return "KF-RT-ret-noprose"
     # class_F|g1_28_1: Optional[str] = '' is emitted as `a: Optional[str] = None` by emit.class_ (the falsy default is dropped)
-    if anyk("class") and any(e["default"] == "" and isinstance(e["default"], str) and e["typ"] == "Optional[str]" for e in es):
+    if anyk("class") and any(e["default"] == "" and isinstance(e["default"], str) and e["typ"] not in ("str", None) for e in es):
         return "KF-RT-class-empty-str-to-none"
     # g1_2_1: untyped parameter with a str default: 'Defaults to x' is written unquoted and literal_eval('x') raises on the way back
     if any(e["typ"] is None and isinstance(e["default"], str) and e["default"] != ABSENT for e in ps) and (anyk("rest", *FN)):
